@@ -48,7 +48,11 @@ class Timeout(Exception):
     pass
 
 
+_TIMEOUTS = [0]      # per process
+
+
 def _alarm(signum, frame):
+    _TIMEOUTS[0] += 1
     raise Timeout()
 
 
@@ -57,6 +61,8 @@ def timed(fn, *args, seconds=5.0):
 
     The budget is CPU time of this process (ITIMER_PROF), so a heavily loaded machine does not
     produce false "hangs"; a generous wall-clock alarm (20x + 30 s) backs it up for blocking calls."""
+    if _TIMEOUTS[0] >= 3:
+        seconds = min(seconds, 0.5)     # the implementation hangs: report it, do not spend hours re-confirming it
     old_r = signal.signal(signal.SIGALRM, _alarm)
     old_p = signal.signal(signal.SIGPROF, _alarm)
     signal.setitimer(signal.ITIMER_PROF, seconds)
